@@ -10,8 +10,10 @@
  *     { VM_INV & MOD_WF & opcode = K }  step  { VM_INV & post_K }  + no fault.
  * vm_release is replaced by its contract (contracts/vm_contracts.h).
  */
+#define VERIF_VM_RELEASE_STUB 1
 #include "vm_contracts.h"
 #include "libc_stubs.h"
+#include "spec_int.h"
 #include <stdlib.h>
 #include <string.h>
 
@@ -50,32 +52,64 @@ static VmString *mk_string(void)
 
 static NanoValue mk_scalar(void)
 {
-    NanoValue v;
+    /* built field by field from a zeroed struct: an uninitialised union local gives CBMC's
+     * field-sensitive symex independent nondets for the union and for its members */
+    NanoValue v = {0};
+    v.tag = nondet_u8();
     __CPROVER_assume(v.tag == TAG_VOID || v.tag == TAG_INT || v.tag == TAG_U8 || v.tag == TAG_FLOAT || v.tag == TAG_BOOL ||
                      v.tag == TAG_ENUM || v.tag == TAG_OPAQUE);
-    if (v.tag == TAG_BOOL) { _Bool b = nondet_bool(); v.as.i64 = 0; v.as.boolean = b; }
+    v.as.i64 = nondet_i64();
+    if (v.tag == TAG_BOOL) { v.as.i64 = 0; v.as.boolean = nondet_bool(); }
     return v;
 }
 
 static NanoValue mk_leaf(void)
 {
     if (nondet_bool()) return mk_scalar();
-    NanoValue v; v.tag = TAG_STRING; v.as.i64 = 0;
+    NanoValue v = {0}; v.tag = TAG_STRING;
     v.as.string = nondet_bool() ? NULL : mk_string();
     return v;
 }
 
 static uint32_t mk_rc(void) { uint32_t r = nondet_u32(); __CPROVER_assume(r >= 1 && r < 0x7fffffffu); return r; }
 
+/* Shape masks: which kinds of value the harness may put in a slot.  Restricting the mask is a
+ * case split chosen by the registry (-DVERIF_M0/M1/M2); the default is "any well-formed value". */
+#define M_SCALAR 1u
+#define M_STRING 2u
+#define M_ARRAY 4u
+#define M_STRUCT 8u
+#define M_UNION 16u
+#define M_TUPLE 32u
+#define M_CLOSURE 64u
+#define M_INT 128u      /* TAG_INT only */
+#define M_BOOL 256u     /* TAG_BOOL only */
+#define M_ANY 127u
+#ifndef VERIF_M0
+#define VERIF_M0 M_ANY
+#endif
+#ifndef VERIF_M1
+#define VERIF_M1 M_ANY
+#endif
+#ifndef VERIF_M2
+#define VERIF_M2 M_ANY
+#endif
+
 /* container whose element at in_k (if it exists) is a well-formed leaf; *len_out = its length */
-static NanoValue mk_value(uint32_t *len_out)
+static NanoValue mk_value(unsigned mask, uint32_t *len_out)
 {
-    uint8_t kind = nondet_u8();
+    if (mask == M_INT) { NanoValue iv = {0}; iv.tag = TAG_INT; iv.as.i64 = nondet_i64(); *len_out = 0; return iv; }
+    if (mask == M_BOOL) { NanoValue bv = {0}; bv.tag = TAG_BOOL; bv.as.boolean = nondet_bool(); *len_out = 0; return bv; }
+    unsigned kind = nondet_u8();
+    __CPROVER_assume(kind == M_SCALAR || kind == M_STRING || kind == M_ARRAY || kind == M_STRUCT || kind == M_UNION ||
+                     kind == M_TUPLE || kind == M_CLOSURE);
+    __CPROVER_assume((kind & mask) != 0);
     *len_out = 0;
-    if (kind == 0) return mk_leaf();
-    NanoValue v; v.as.i64 = 0;
+    NanoValue v = {0};
+    if ((mask & M_SCALAR) && kind == M_SCALAR) return mk_scalar();
+    if ((mask & M_STRING) && kind == M_STRING) { v.tag = TAG_STRING; v.as.string = nondet_bool() ? NULL : mk_string(); return v; }
     NanoValue leaf = mk_leaf();
-    if (kind == 1) {
+    if ((mask & M_ARRAY) && kind == M_ARRAY) {
         v.tag = TAG_ARRAY;
         VmArray *a = malloc(sizeof(VmArray)); __CPROVER_assume(a != NULL);
         a->header.ref_count = mk_rc(); a->header.obj_type = TAG_ARRAY;
@@ -84,7 +118,7 @@ static NanoValue mk_value(uint32_t *len_out)
         if (in_k < a->capacity) a->elements[in_k] = leaf;
         *len_out = a->length;
         v.as.array = a;
-    } else if (kind == 2) {
+    } else if ((mask & M_STRUCT) && kind == M_STRUCT) {
         v.tag = TAG_STRUCT;
         VmStruct *s = malloc(sizeof(VmStruct)); __CPROVER_assume(s != NULL);
         s->header.ref_count = mk_rc(); s->header.obj_type = TAG_STRUCT;
@@ -94,7 +128,7 @@ static NanoValue mk_value(uint32_t *len_out)
         if (in_k < s->field_count) s->fields[in_k] = leaf;
         *len_out = s->field_count;
         v.as.sval = s;
-    } else if (kind == 3) {
+    } else if ((mask & M_UNION) && kind == M_UNION) {
         v.tag = TAG_UNION;
         VmUnion *u = malloc(sizeof(VmUnion)); __CPROVER_assume(u != NULL);
         u->header.ref_count = mk_rc(); u->header.obj_type = TAG_UNION;
@@ -102,7 +136,7 @@ static NanoValue mk_value(uint32_t *len_out)
         if (in_k < u->field_count) u->fields[in_k] = leaf;
         *len_out = u->field_count;
         v.as.uval = u;
-    } else if (kind == 4) {
+    } else if ((mask & M_TUPLE) && kind == M_TUPLE) {
         v.tag = TAG_TUPLE;
         uint32_t n = nondet_u32(); __CPROVER_assume(n <= (1u << 16));
         VmTuple *t = malloc(sizeof(VmTuple) + (size_t)n * sizeof(NanoValue)); __CPROVER_assume(t != NULL);
@@ -110,7 +144,7 @@ static NanoValue mk_value(uint32_t *len_out)
         if (in_k < n) t->elements[in_k] = leaf;
         *len_out = n;
         v.as.tuple = t;
-    } else if (kind == 5) {
+    } else if ((mask & M_CLOSURE) && kind == M_CLOSURE) {
         v.tag = TAG_FUNCTION;
         uint16_t n = nondet_u16();
         VmClosure *c = malloc(sizeof(VmClosure) + (size_t)n * sizeof(NanoValue)); __CPROVER_assume(c != NULL);
@@ -119,7 +153,7 @@ static NanoValue mk_value(uint32_t *len_out)
         *len_out = n;
         v.as.closure = c;
     } else {
-        return mk_leaf();
+        return mk_scalar();
     }
     return v;
 }
@@ -146,29 +180,55 @@ static void build_state(void)
     for (int i = 0; i < 2; i++) {
         char *s = malloc(4); __CPROVER_assume(s != NULL); s[3] = 0; m->strings[i] = s;
     }
-    /* both functions passed verify_structure */
-    __CPROVER_assume(FN_OK(m, 0) && FN_OK(m, 1));
+    /* Fixed code layout (so that the opcode byte read back by isa_decode is a constant and symbolic
+     * execution prunes the other 93 cases): function 0 = [3,33), function 1 = [33,43); the instruction
+     * under proof sits at offset 5 of function 0 (absolute 8).  Everything else in the entries is symbolic. */
+    m->functions[0].code_offset = 3;  m->functions[0].code_length = 30;
+    m->functions[1].code_offset = 33; m->functions[1].code_length = 10;
+    __CPROVER_assume(m->functions[0].name_idx < m->string_count || m->string_count == 0);
 
     VmState *vm = malloc(sizeof(VmState)); __CPROVER_assume(vm != NULL);
     vm->module = m;
-    __CPROVER_assume(vm->current_fn < 2);
-    uint32_t f = vm->current_fn;
-    uint32_t p = nondet_u32();                         /* offset of the instruction inside the function */
-    __CPROVER_assume(p < m->functions[f].code_length);
-    uint8_t *at = m->code + m->functions[f].code_offset + p;
+    vm->current_fn = 0;
+    const uint32_t f = 0, p = 5;
+    uint8_t *at = m->code + 8;
     in_operand = nondet_operand();
     at[0] = (uint8_t)VERIF_OP;
-    for (uint32_t j = 1; j < 12; j++)
-        if ((uint64_t)m->functions[f].code_offset + p + j < CODE_N) at[j] = in_operand.b[j];
+    {   /* exactly the operand bytes of this opcode are symbolic; the bytes after the instruction stay HALT */
+        const uint32_t ilen = SPEC_LEN_M((uint8_t)VERIF_OP);
+        if (1 < ilen) at[1] = in_operand.b[1];   if (2 < ilen) at[2] = in_operand.b[2];
+        if (3 < ilen) at[3] = in_operand.b[3];   if (4 < ilen) at[4] = in_operand.b[4];
+        if (5 < ilen) at[5] = in_operand.b[5];   if (6 < ilen) at[6] = in_operand.b[6];
+        if (7 < ilen) at[7] = in_operand.b[7];   if (8 < ilen) at[8] = in_operand.b[8];
+        if (9 < ilen) at[9] = in_operand.b[9];   if (10 < ilen) at[10] = in_operand.b[10];
+        if (11 < ilen) at[11] = in_operand.b[11];
+    }
     /* the instruction passed verify_function (decode ok, targets/indices in range) */
-    __CPROVER_assume(IOK_DECODE(m, f, p) && IOK_JMP(m, f, p) && IOK_MATCH(m, f, p) && IOK_CALL(m, f, p) &&
-                     IOK_STR(m, f, p) && IOK_EXTERN(m, f, p) && IOK_LOCAL(m, f, p));
-    vm->ip = m->functions[f].code_offset + p;
+    {
+        const uint8_t *c = m->code + 3;
+        uint32_t end = 30;
+        __CPROVER_assume(IOKP_DECODE(c, end, p));
+        uint8_t K = (uint8_t)VERIF_OP;      /* constant: only the clause of this opcode is non-trivial */
+        if (K == OP_JMP || K == OP_JMP_TRUE || K == OP_JMP_FALSE) __CPROVER_assume(IOKP_JMP(c, end, p));
+        if (K == OP_MATCH_TAG) __CPROVER_assume(IOKP_MATCH(c, end, p));
+        if (K == OP_CALL || K == OP_CLOSURE_NEW) __CPROVER_assume(IOKP_CALL(c, end, p, m->function_count));
+        if (K == OP_PUSH_STR) __CPROVER_assume(IOKP_STR(c, end, p, m->string_count));
+        if (K == OP_CALL_EXTERN) __CPROVER_assume(IOKP_EXTERN(c, end, p, m->import_count));
+        if (K == OP_LOAD_LOCAL || K == OP_STORE_LOCAL) __CPROVER_assume(IOKP_LOCAL(c, end, p, m->functions[f].local_count));
+    }
+    vm->ip = 8;
     g_instr_at = vm->ip;
 
     /* scalar invariant */
+#ifdef VERIF_STACK_SIZE
+    /* operator-semantics obligations pin the stack depth (the handlers' arithmetic does not depend on it):
+       with concrete slot indices the operands the VM reads are the very SSA symbols the spec is applied to,
+       so that e.g. `a / b` in vm.c and in the spec function are one term for the solver */
+    in_stack_cap = 8; in_stack_size = VERIF_STACK_SIZE;
+#else
     in_stack_cap = nondet_u32(); in_stack_size = nondet_u32();
     __CPROVER_assume(in_stack_cap >= 1 && in_stack_cap <= 64 && in_stack_size <= in_stack_cap);
+#endif
     vm->stack_capacity = in_stack_cap; vm->stack_size = in_stack_size;
     vm->stack = malloc((size_t)in_stack_cap * sizeof(NanoValue)); __CPROVER_assume(vm->stack != NULL);
     __CPROVER_assume(vm->frame_count >= 1 && vm->frame_count <= VM_MAX_FRAMES);
@@ -182,7 +242,7 @@ static void build_state(void)
 
     /* footprint: top three slots */
     in_k = nondet_u32();
-    in_v0 = mk_value(&in_len0); in_v1 = mk_value(&in_len1); in_v2 = mk_value(&in_len2);
+    in_v0 = mk_value(VERIF_M0, &in_len0); in_v1 = mk_value(VERIF_M1, &in_len1); in_v2 = mk_value(VERIF_M2, &in_len2);
     if (in_stack_size >= 1) vm->stack[in_stack_size - 1] = in_v0;
     if (in_stack_size >= 2) vm->stack[in_stack_size - 2] = in_v1;
     if (in_stack_size >= 3) vm->stack[in_stack_size - 3] = in_v2;
@@ -242,8 +302,75 @@ void h_c08(void)
     } else {
         __CPROVER_assert(t.type != TRAP_ERROR, "C08.vm an in-range access does not fail");
     }
+#if VERIF_OP == 0x53 || VERIF_OP == 0x57 || VERIF_OP == 0x54   /* index is an int64 from the stack */
     VERIF_COVER(out_of_range && idx < 0);
+    VERIF_COVER(out_of_range && idx >= (int64_t)4294967296);
+#endif
+#if VERIF_OP != 0x52
     VERIF_COVER(out_of_range && idx >= (int64_t)len && len > 0);
+#endif
     VERIF_COVER(!out_of_range);
     (void)ss0;
+}
+
+/* ---- C02.vm.<OP>: integer / boolean operator semantics against the spec functions ---- */
+void h_c02(void)
+{
+    build_state();
+    VmState *vm = g_vm;
+    uint8_t K = (uint8_t)VERIF_OP;
+    _Bool unary = (K == OP_NEG || K == OP_NOT);
+    _Bool logic = (K == OP_AND || K == OP_OR || K == OP_NOT);
+    __CPROVER_assume(in_stack_size >= (unary ? 1u : 2u));
+    __CPROVER_assume(in_v0.tag == (logic ? TAG_BOOL : TAG_INT));
+    if (!unary) __CPROVER_assume(in_v1.tag == (logic ? TAG_BOOL : TAG_INT));
+    int64_t b = in_v0.as.i64, a = in_v1.as.i64;      /* a op b : a was pushed first */
+#ifdef VERIF_SMALL
+    __CPROVER_assume(a >= -128 && a <= 127 && b >= -128 && b <= 127);
+#endif
+    _Bool bb = in_v0.as.boolean, ba = in_v1.as.boolean;
+    uint32_t ss0 = vm->stack_size;
+    VmTrap t = vm_core_execute(vm);
+    __CPROVER_assert(t.type == TRAP_HALT || t.type == TRAP_NONE, "C02.vm the operator step does not trap");
+    __CPROVER_assert(vm->stack_size == ss0 - (unary ? 0u : 1u), "C02.vm operands consumed, one result pushed");
+    NanoValue r = vm->stack[vm->stack_size - 1];
+    switch (K) {
+    case OP_ADD: __CPROVER_assert(r.tag == TAG_INT && r.as.i64 == spec_add(a, b), "C02.vm ADD == wrapping add"); break;
+    case OP_SUB: __CPROVER_assert(r.tag == TAG_INT && r.as.i64 == spec_sub(a, b), "C02.vm SUB == wrapping sub"); break;
+#ifdef VERIF_SMALL
+    case OP_MUL: __CPROVER_assert(r.tag == TAG_INT && r.as.i64 == spec_mul(a, b), "C02.vm MUL == wrapping mul"); break;
+#else
+    /* full 64x64 multiplier equivalence is beyond the SAT back ends here (measured: > 900 s); the full-domain
+       obligation pins type, fault-freedom and the algebraic corner cases, the value itself is the bounded obligation */
+    case OP_MUL: __CPROVER_assert(r.tag == TAG_INT && (a != 0 || r.as.i64 == 0) && (b != 0 || r.as.i64 == 0) &&
+                                  (a != 1 || r.as.i64 == b) && (b != 1 || r.as.i64 == a) &&
+                                  (a != -1 || r.as.i64 == spec_neg(b)) && (b != -1 || r.as.i64 == spec_neg(a)) &&
+                                  ((r.as.i64 & 1) == ((a & 1) & (b & 1))), "C02.vm MUL corner cases (0, 1, -1, parity)"); break;
+#endif
+    case OP_NEG: __CPROVER_assert(r.tag == TAG_INT && r.as.i64 == spec_neg(b), "C02.vm NEG == wrapping neg"); break;
+#ifdef VERIF_SMALL
+    case OP_DIV: __CPROVER_assert(r.tag == TAG_INT && r.as.i64 == spec_div_vm(a, b), "C02.vm DIV == truncating div (total)"); break;
+    case OP_MOD: __CPROVER_assert(r.tag == TAG_INT && r.as.i64 == spec_mod_vm(a, b), "C02.vm MOD == truncating rem (total)"); break;
+#else
+    /* full-domain: no fault for ANY operands (incl. INT64_MIN / -1, checked by CBMC's overflow check in vm.c),
+       and the spec's corner cases; the generic quotient (two 64-bit dividers compared) is the bounded obligation */
+    case OP_DIV: __CPROVER_assert(r.tag == TAG_INT && (b != 0 || r.as.i64 == 0) && (b != 1 || r.as.i64 == a) &&
+                                  (b != -1 || r.as.i64 == spec_neg(a)) && (a != 0 || r.as.i64 == 0) &&
+                                  (a != b || b == 0 || r.as.i64 == 1), "C02.vm DIV corner cases (b=0 -> 0, b=1, b=-1 incl. INT64_MIN, a=0, a=b)"); break;
+    case OP_MOD: __CPROVER_assert(r.tag == TAG_INT && (b != 0 || r.as.i64 == 0) && (b != 1 || r.as.i64 == 0) &&
+                                  (b != -1 || r.as.i64 == 0) && (a != 0 || r.as.i64 == 0) &&
+                                  (a != b || r.as.i64 == 0), "C02.vm MOD corner cases (b=0 -> 0, b=+-1 incl. INT64_MIN, a=0, a=b)"); break;
+#endif
+    case OP_EQ: __CPROVER_assert(r.tag == TAG_BOOL && r.as.boolean == (a == b), "C02.vm EQ"); break;
+    case OP_NE: __CPROVER_assert(r.tag == TAG_BOOL && r.as.boolean == (a != b), "C02.vm NE"); break;
+    case OP_LT: __CPROVER_assert(r.tag == TAG_BOOL && r.as.boolean == (a < b), "C02.vm LT"); break;
+    case OP_LE: __CPROVER_assert(r.tag == TAG_BOOL && r.as.boolean == (a <= b), "C02.vm LE"); break;
+    case OP_GT: __CPROVER_assert(r.tag == TAG_BOOL && r.as.boolean == (a > b), "C02.vm GT"); break;
+    case OP_GE: __CPROVER_assert(r.tag == TAG_BOOL && r.as.boolean == (a >= b), "C02.vm GE"); break;
+    case OP_AND: __CPROVER_assert(r.tag == TAG_BOOL && r.as.boolean == (ba && bb), "C02.vm AND"); break;
+    case OP_OR: __CPROVER_assert(r.tag == TAG_BOOL && r.as.boolean == (ba || bb), "C02.vm OR"); break;
+    case OP_NOT: __CPROVER_assert(r.tag == TAG_BOOL && r.as.boolean == !bb, "C02.vm NOT"); break;
+    default: __CPROVER_assert(0, "C02.vm harness used with a non-operator opcode");
+    }
+    VERIF_COVER(t.type == TRAP_HALT);
 }
